@@ -439,8 +439,9 @@ func c14One(run *ev.Run, p c14P) {
 	// "If the BMC ... reports a newer addition or erase timestamp during the walk, the partial result is
 	// discarded and the walk repeated": the walk whose result was returned is the one after the last
 	// reservation; the repository info read before it and the one read after it must not show a newer
-	// stamp (stamps of 0xffffffff, "unspecified", are left out: regime 1)
-	if p.TS != 1 {
+	// stamp (unsigned comparison; a stamp of 0xffffffff is the newest there is - and two of them in a row
+	// are not "newer", which no console could tell apart either)
+	{
 		lastReserve := -1
 		for i, rq := range log {
 			if rq.Kind == "reserve" {
